@@ -210,10 +210,15 @@ impl Recovery {
             }
             RecoveryPhase::CountingDuplicates { dup_acks } => {
                 // HighAck is the last sequence number fully consumed by receiver.
-                let high_ack = match tx_segs.first_seq_nr() {
+                // Segments that were cut but never transmitted are not in flight: an ACK that
+                // arrives before they go out is no evidence of their loss.
+                let first_in_flight = tx_segs
+                    .first_seq_nr()
+                    .filter(|first| *first <= last_sent_seq_nr);
+                let high_ack = match first_in_flight {
                     Some(s) => s - 1,
                     None => {
-                        // The queue is empty, don't count ACKs.
+                        // Nothing is in flight, don't count ACKs.
                         *dup_acks = 0;
                         // But remember this one: once more data is sent, its duplicates must be
                         // recognized as such, otherwise the first one would be missed.
